@@ -9,9 +9,20 @@
   elements with 1-byte or 4-byte headers, ndim = 0 for the empty array).
   Model side (Model/Arrays.lean): types.go's array code after the patches of /verif/fixes/arrays, parametric in the
   element decoder `dec` = `DecodeType` on the element's bytes.
+
+  Two things the statements below do NOT say, because the code's result cannot carry them:
+   * the result is the FLAT list of the elements in storage order; `decodeArray` never reads the dimension sizes beyond
+     their product, nor the lower bounds: `{{1,2},{3,4}}` and `{1,2,3,4}` decode to the same list, and "every lower
+     bound" of the property's quantifier is covered only in the sense that no lower bound disturbs the element list;
+   * "NULL exactly at the NULL positions" is relative to the element decoder: the theorems place `dec payload` at every
+     non-NULL position, but the REAL `DecodeType` answers nil — the same Go value as for a NULL — for an element whose bytes
+     it cannot decode (a numeric with a non-digit word, a value shorter than its fixed width); for the valid stored values
+     of C04/C05/C06 it never does (their round-trip theorems return non-nil values), and the composed function
+     (array + real element decoders) is compared with the real code, values and all, by family `sc_closed`.
 -/
 import PgVerif.Proofs.ArraysEnc
 import PgVerif.Proofs.ArraysTables
+import PgVerif.Model.Scalars
 namespace PgVerif.Props.C07
 open PgVerif PgVerif.Model.Arrays PgVerif.Proofs.Arrays
 open PgVerif.Spec.Arrays (PgArray Datum encArray view viewElems elemView elemValue emptyValue pgArrayTypes)
@@ -68,19 +79,29 @@ theorem C07_empty (dec : Dec) (a : PgArray) (h : a.WF) (hd : a.dims = []) :
   rw [if_pos hd] at hcnt
   unfold view; rw [hcnt.1]; rfl
 
-/-- The array tables of the code, observed by executing it (Generated/Arrays.lean: which oids DecodeType treats as
-arrays; with which width — or as varlenas — and with which alignment it reads their elements; which scalar decoder it
-applies to an element), are PostgreSQL's pg_type: for every array type of the Spec's table the code reads elements of
-width typlen (varlenas for typlen = −1) aligned to typalign and decodes them as the element type; the code treats no
-other oid up to 5000 as an array; and the model's hand-written copies of the tables agree with the observations. -/
+/-- The array tables of the code are PostgreSQL's pg_type.  `arrayElemTypes` — the table of both Lean models of DecodeType —
+is read from the map literal in the current Go source on every run (`Generated.Arrays.arrayElemTypes` for `Model.Arrays`,
+`Generated.Scalars.arrayElemTypes` for `Model.Scalars`: one per area's harness; the last conjunct proves them equal, so a
+stale or diverging copy breaks this theorem); the code's behaviour is observed by executing it (`Generated.Arrays`: which
+oids DecodeType treats as arrays; with which width — or as varlenas — and alignment it reads their elements; which scalar
+decoders give the same answers as the element decoder it applies).  For every array type of the Spec's table the code reads
+elements of width typlen (varlenas for typlen = −1) aligned to typalign and decodes them as the element type; the code
+treats no other oid up to 5000 as an array; the source table has exactly the observed array oids as keys, its element oid
+is among the observed element decoders, and it is the Spec's `decodeAs` (pg_type's element type; `regproc` is stored as
+an oid); the element layout the model derives from it is the observed one. -/
 theorem C07_tables :
     (∀ t ∈ pgArrayTypes,
       t.arrayOid ∈ Generated.Arrays.arrayOids ∧
       Generated.Arrays.layout.lookup t.arrayOid = some ((if t.typlen > 0 then t.typlen.toNat else 0), t.typalign) ∧
-      t.decodeAs ∈ (Generated.Arrays.elemCands.lookup t.arrayOid).getD []) ∧
+      t.decodeAs ∈ (Generated.Arrays.elemCands.lookup t.arrayOid).getD [] ∧
+      arrayElemTypes.lookup t.arrayOid = some t.decodeAs) ∧
     (∀ o ∈ Generated.Arrays.arrayOids, o ∈ pgArrayTypes.map (·.arrayOid)) ∧
-    (∀ r ∈ Generated.Arrays.layout, (arrayElemTypes.lookup r.1).map elemLayout = some (r.2.1, decide (0 < r.2.1), r.2.2)) := by
-  refine ⟨by decide, by decide, gen_layout⟩
+    (∀ o ∈ Generated.Arrays.arrayOids, (arrayElemTypes.lookup o).isSome = true) ∧
+    (∀ p ∈ arrayElemTypes, p.1 ∈ Generated.Arrays.arrayOids) ∧
+    (∀ r ∈ Generated.Arrays.elemCands, (match arrayElemTypes.lookup r.1 with | some e => decide (e ∈ r.2) | none => false) = true) ∧
+    (∀ r ∈ Generated.Arrays.layout, (arrayElemTypes.lookup r.1).map elemLayout = some (r.2.1, decide (0 < r.2.1), r.2.2)) ∧
+    Model.Scalars.arrayElemTypes = arrayElemTypes := by
+  refine ⟨by decide, by decide, gen_arrayOids_sub, model_arrayOids_sub, gen_elemCands, gen_layout, by decide⟩
 
 /-- non-vacuity: `{1,NULL,3}::int4[]` (one dimension, lower bound 1, a NULL in the middle),
 `{1,2}::int4[]` stored with an all-present null bitmap, a two-dimensional
